@@ -192,7 +192,13 @@ def gen_circuit(spec):
         from bqskit.compiler.passdata import PassData
         from bqskit.passes import QuickPartitioner, ScanPartitioner
         P = QuickPartitioner(part) if spec['seed'] % 2 == 0 else ScanPartitioner(part)
-        asyncio.run(P.run(c, PassData(c)))
+        c2 = c.copy()
+        try:
+            if part < n:
+                asyncio.run(P.run(c2, PassData(c2)))
+                c = c2
+        except RuntimeError:
+            pass        # a gate larger than the block size: keep the flat circuit
     return c
 
 
@@ -572,6 +578,8 @@ def make_passes(spec):
 def run_case(spec):
     """Run the real workflow on one case; returns a picklable result dict."""
     warnings.simplefilter('ignore')
+    import logging
+    logging.getLogger('bqskit').setLevel(logging.ERROR)
     from bqskit.ir.circuit import Circuit  # noqa: F401
     from bqskit.compiler.machine import MachineModel
     from bqskit.compiler.passdata import PassData
